@@ -387,6 +387,9 @@ pub fn run(ctx: &Ctx) -> i32 {
         per_mn: Mutex::new(BTreeMap::new()),
         radix: Mutex::new(BTreeMap::new()),
     };
+    // shuffled: consecutive builds on one thread then mix devices and forms (state surviving from one
+    // build to the next on the same thread would otherwise only meet its own kind)
+    rng.shuffle(&mut jobs);
     fw::par_items(&jobs, |i, job| run_job(ctx, &sh, i as u64, job));
 
     let distinct_first: u64 = sh.first_words.iter().map(|w| w.load(Ordering::Relaxed).count_ones() as u64).sum();
